@@ -202,6 +202,11 @@ def run(model, rep, tier):
     check_rollback_purge(model, rep, "R-03.3")
     check_padded_opt(model, rep, "R-03.5")
     rep.share(model, "C06", {"R-06.1"}, "R-03.6", "compress[n] and Message.index use Name.__eq__/__hash__; a name equal to a different name is emitted as a pointer to the wrong suffix")
+    gqf = [c for c in ast.walk(gq.node) if isinstance(c, ast.Call) and src(c.func) == "self.message.find_rrset"]
+    kwq = {k.arg: src(k.value) for c in gqf for k in c.keywords}
+    rep.check(len(gqf) == 1 and kwq.get("create") == "True" and kwq.get("force_unique") == "True", "R-03.4", gq.qualname, where(gq, gq.node),
+              "every question read from the wire becomes its own entry (find_rrset(create=True, force_unique=True))",
+              f"questions are stored with {kwq}: a repeated question is folded into the first one, so the parsed message has fewer questions than QDCOUNT and re-renders to different octets", stmt="question-unique")
     rep.meta["explanation"] = (
         "Layout agreement of the hand-written writer/reader pairs at the message layer (struct formats folded and compared field by field), statement-position rule for the section counts, "
         "provenance of the compression table argument at every to_wire call that receives the renderer's buffer, and who-may-write on the section index. "
@@ -209,6 +214,8 @@ def run(model, rep, tier):
 
 
 WITNESSES = [
+    {"id": "c03-questions-merged", "rule": "R-03.4", "file": "dns/message.py", "expect": "fires",
+     "old": "                section, qname, rdclass, rdtype, create=True, force_unique=True\n            )\n\n    def _add_error", "new": "                section, qname, rdclass, rdtype, create=True\n            )\n\n    def _add_error"},
     {"id": "c03-counts-swapped", "rule": "R-03.1", "file": "dns/renderer.py", "expect": "fires",
      "old": "                    self.counts[1],\n                    self.counts[2],", "new": "                    self.counts[2],\n                    self.counts[1],"},
     {"id": "c03-count-inside-track", "rule": "R-03.2", "file": "dns/renderer.py", "expect": "fires",
